@@ -272,7 +272,136 @@ class C01(C03):
         return '(({| cc_case := %s; cc_cuts := %s |}, %s, %s), %s)' % (base, cl, judged, run, text)
 
 
+
+# ------------------------------------------------------------------------------ how much of the generated language lies
+# inside the text-level theorem (Compose/TextDomain.v).  NOT part of the check: a measurement, run by hand with
+#   cd /verif && PYTHONPATH=tools:/repo PBR_VERSION=0.0.0 /venv/bin/python -m props.c01 --text-domain SEED N
+# A tokenizer proposes (tokens, descriptor decoration) for every fragment text of a generated string; Coq re-renders the
+# proposal (FragText.render (decorate toks dc)), compares it with the written text and evaluates td_class.
+_BSYM = {'-': 'BSingle', '=': 'BDouble', '#': 'BTriple', '$': 'BQuad', ':': 'BArom', '.': 'BZero'}
+_KINDS = '$<>!'
+
+
+def tokenize_fragment(text):
+    """(lead, toks, after): descriptors are (kind, label, sym or None); toks are Gallina terms; after[i] = descriptors
+    written behind token i.  None when the text leaves the language of the generator."""
+    lead, toks, after = [], [], []
+    i, n = 0, len(text)
+
+    def desc_at(j):
+        k = text.find(']', j)
+        return (text[j + 1], text[j + 2:k]), k + 1
+
+    while i < n and text[i] == '[' and i + 1 < n and text[i + 1] in _KINDS:
+        (kind, lab), i = desc_at(i)
+        sym = None
+        if i < n and text[i] in _BSYM:          # no token yet: a symbol here is the leading descriptor's ([$x]=C)
+            sym = text[i]
+            i += 1
+        lead.append((kind, lab, sym))
+    while i < n:
+        c = text[i]
+        if c in _BSYM and i + 2 < n and text[i + 1] == '[' and text[i + 2] in _KINDS:
+            (kind, lab), i = desc_at(i + 1)
+            if not toks:
+                return None
+            after[-1].append((kind, lab, c))
+        elif c == '[' and i + 1 < n and text[i + 1] in _KINDS:
+            (kind, lab), i = desc_at(i)
+            if not toks:
+                return None
+            after[-1].append((kind, lab, None))
+        elif c == '[':
+            k = text.find(']', i)
+            body = text[i + 1:k]
+            if ';' in body:
+                return None
+            toks.append('TBracket %s None' % lit.s(body)); after.append([]); i = k + 1
+        elif c == '(':
+            toks.append('TOpen'); after.append([]); i += 1
+        elif c == ')':
+            toks.append('TClose'); after.append([]); i += 1
+        elif c in _BSYM and i + 1 < n and (text[i + 1].isdigit() or text[i + 1] == '%'):
+            j = i + 1
+            mk = text[j] if text[j].isdigit() else text[j:j + 3]
+            toks.append('TRing (Some %s) %s' % (_BSYM[c], lit.s(mk))); after.append([]); i = j + len(mk)
+        elif c.isdigit() or c == '%':
+            mk = c if c.isdigit() else text[i:i + 3]
+            toks.append('TRing None %s' % lit.s(mk)); after.append([]); i += len(mk)
+        elif c in _BSYM:
+            toks.append('TBond %s' % _BSYM[c]); after.append([]); i += 1
+        elif text[i:i + 2] in ('Cl', 'Br'):
+            toks.append('TAtom %s' % lit.s(text[i:i + 2])); after.append([]); i += 2
+        elif c.isalpha():
+            toks.append('TAtom %s' % lit.s(c)); after.append([]); i += 1
+        else:
+            return None
+    return lead, toks, after
+
+
+def _desc_lit(d):
+    kind, lab, sym = d
+    return '{| d_kind := "%s"%%char; d_label := %s; d_sym := %s |}' % (kind, lit.s(lab), 'None' if sym is None else '(Some %s)' % _BSYM[sym])
+
+
+def text_domain_literal(case, hcount):
+    """Gallina term of type TextDomain.td_case for a generated case, or None"""
+    base, frs = case['s'].split('.', 1)
+    defs = []
+    for d in frs[1:-1].split(','):
+        name, text = d[1:].split('=', 1)
+        tk = tokenize_fragment(text)
+        if tk is None:
+            return None
+        lead, toks, after = tk
+        defs.append('(%s, {| fd_name := %s; fd_toks := %s; fd_dc := {| d_lead := %s; d_after := %s |} |})' % (
+            lit.s(text), lit.s(name), lit.lst(['(%s)' % t for t in toks]), lit.lst([_desc_lit(x) for x in lead]),
+            lit.lst([lit.lst([_desc_lit(x) for x in a]) for a in after])))
+    return '(%s, %s, %s)' % (C01._cut_literal(case['glevel'], hcount), lit.s(base[1:-1]), lit.lst(defs))
+
+
+def text_domain_measure(seed, n):
+    import os, subprocess, collections
+    ctx = common.Ctx('C01td', 'quick', seed)
+    prop = C01()
+    cases = prop.generate(ctx, n)
+    terms, kept = [], []
+    for c in cases:
+        gl = prop._graph_level(c) if c.get('glevel') else None
+        if gl is None:
+            print('no graph-level record:', c['s'])
+            continue
+        t = text_domain_literal(c, gl['hcount'])
+        if t is None:
+            print('outside the tokenizer:', c['s'])
+            continue
+        terms.append(t)
+        kept.append(c)
+    src = ('From Coq Require Import String.\nFrom Coq Require Import List Ascii ZArith Bool.\n'
+           'From CGV Require Import Base.PyBase Base.PyVal Base.NxGraph Dialect.DialectImpl Frag.FragText Compose.CutModel '
+           'Compose.TextCut Compose.TextDomain.\nImport ListNotations.\nOpen Scope Z_scope.\n'
+           'Definition cases : list td_case := [\n' + ';\n'.join(terms) + '].\n'
+           'Eval vm_compute in (map (td_class (fo_of_table [])) cases).\n')
+    path = os.path.join(ctx.work, 'td_cases.v')
+    open(path, 'w').write(src)
+    out = subprocess.run(['coqc', '-Q', os.path.join(common.VERIF, 'theories'), 'CGV', path], capture_output=True, text=True,
+                         timeout=3000)
+    nums = [int(x) for x in re.findall(r'(\d+)%nat', out.stdout)]
+    print('generated', len(cases), 'tokenized', len(kept), 'evaluated', len(nums))
+    print('classes', dict(collections.Counter(nums)))
+    for c, k in zip(kept, nums):
+        if k != 0:
+            print(k, c['s'])
+    if out.returncode != 0:
+        print(out.stderr[-2000:])
+    ctx.cleanup()
+
 PROP = C01()
 PROP.case_type = 'c01t_case'
 PROP.corr_fn = 'c01t_corr'
 PROP.fail_fn = 'c01t_fail'
+
+if __name__ == '__main__':
+    import sys
+    if len(sys.argv) >= 2 and sys.argv[1] == '--text-domain':
+        text_domain_measure(int(sys.argv[2]) if len(sys.argv) > 2 else 0, int(sys.argv[3]) if len(sys.argv) > 3 else 100)
